@@ -8,6 +8,8 @@ MUTANTS = [
     F("C03", "blocks aligned to 4 bytes", K,
       "Select(Aligned(8, Prefixed(Int64ul, GreedyBytes)), Prefixed(Int64ul, GreedyBytes))",
       "Select(Aligned(4, Prefixed(Int64ul, GreedyBytes)), Prefixed(Int64ul, GreedyBytes))", None),
+    F("C03", "signpost name no longer resolved through the string index", "os_log_event.py",
+      "            parsed_event['signpost_name'] = log_strings[event.pop('sn')]", "            parsed_event['signpost_name'] = event.pop('sn')", "R10"),
     N("C03", "block filler written as an explicit padding function", K,
       "    'data' / Select(Aligned(8, Prefixed(Int64ul, GreedyBytes)), Prefixed(Int64ul, GreedyBytes)),\n",
       "    'data' / Prefixed(Int64ul, GreedyBytes),\n    Optional(Padding(lambda ctx: -len(ctx.data) % 8)),\n",
